@@ -35,6 +35,9 @@ type Value struct {
 	Str     string // decoded
 	Elems   []*Value
 	Members []Member
+	// RawPos marks a string that a consumer reads from the raw bytes (never re-encoded with optional escapes
+	// when EncOpts.KeepRaw is set).
+	RawPos bool
 }
 
 func S(s string) *Value            { return &Value{Kind: String, Str: s} }
@@ -306,6 +309,8 @@ type EncOpts struct {
 	R       *rand.Rand
 	// EscKeys: apply the escape mode to member names as well
 	EscKeys bool
+	// KeepRaw: strings marked RawPos are written with minimal escaping whatever Esc says
+	KeepRaw bool
 }
 
 func Encode(v *Value, o EncOpts) []byte {
@@ -349,7 +354,11 @@ func enc(sb *strings.Builder, v *Value, o EncOpts, depth int) {
 	case Number:
 		sb.WriteString(v.Num)
 	case String:
-		encStr(sb, v.Str, o.Esc)
+		if v.RawPos && o.KeepRaw {
+			encStr(sb, v.Str, EscMinimal)
+		} else {
+			encStr(sb, v.Str, o.Esc)
+		}
 	case Array:
 		sb.WriteByte('[')
 		for i, e := range v.Elems {
